@@ -14,7 +14,7 @@ from syn_gen import *
 from gen import Gen
 import l2
 
-NEEDS = ("runner",)
+NEEDS = ("runner", "cli")
 TRUSTED = ["TsV/Lemmas/C15_Spec.lean: the comment lexers cStep (// and /* */, per-language line terminators, nesting) and pyStep "
            "(#, short and triple-quoted strings with backslash escapes); the origin tags of renderT (erase_renderT / "
            "docChars_renderT pin them to the model's renderers); `contained`; `Bad`; `KnownScalaSub`",
@@ -464,6 +464,23 @@ def replay(check, v):
 
 # ----------------------------------------------------------------------------- the check
 
+def on_disk_part(check):
+    """containment is a property of the file the binary leaves behind: written over a destination that still holds an earlier
+    output with longer doc comments (or any longer / equally long text), no doc text of either version may end up outside a
+    comment - the file must be what a run into a fresh path writes"""
+    doc_long = "".join("/// Z%dQ the quick brown fox jumps over the lazy dog, again and again and again\n" % i for i in range(6))
+    v1 = "#[typeshare]\n%spub struct Documented {\n    %s    pub a: u8,\n}\n" % (doc_long, doc_long.replace("///", "    ///").lstrip())
+    v2 = "#[typeshare]\n/// Z0Q short\npub struct Documented {\n    pub a: u8,\n}\n"
+    for lang in LANGS:
+        prob = dirty_destination(check, "docs", lang, {"src/lib.rs": v2}, earlier_sources={"src/lib.rs": v1})
+        if prob:
+            leaked, _ = outside(lang, prob["file_after_run"] or "")
+            check.violation("%s: written over a destination that holds an earlier output (%s), the file %s"
+                            % (lang, prob["state"], "has doc text outside comments: %s" % leaked[:3] if leaked else "is not what a fresh run writes"),
+                            case=prob, impl=prob["file_after_run"], model=prob["fresh_run"], failing_input=True)
+            return
+
+
 def run(check):
     rng = check.rng
     nfiles = 6000 if check.thorough else 400
@@ -583,6 +600,8 @@ def run(check):
                         case={"source": c["src"], "lang": c["lang"], "request": c["r"]}, impl=ra, model=ma, failing_input=False,
                         broken="correspondence L2 generate_types incl. parse_comment_attrs / write_comments (theorems TsV.C15.C15_exact, "
                                "C15_partial, C15_all_but_scala, C15_parser, C15_render)")
+    if not check.violations:
+        on_disk_part(check)
     check.assumptions += [
         "the comment lexers are the comment syntax only (no string / template / raw-string literals for the // family): exact on "
         "comment blocks, whose code parts are white space; on whole files they are used to locate sentinels, which occur only in "
